@@ -51,6 +51,12 @@ def gen_cases_for(seed_, n):
             extra.append(None)
         if rng.random() < 0.15:
             extra.append(rng.choice([1, 2.5, True, [1], {"k": 1}]))
+        prefix_twin = None
+        if rng.random() < 0.06:
+            # a plain string that shares its first 20-26 characters with a long pseudo-typed string the same generator has already
+            # seen under another key: the plain one is 20 characters or longer, so the position generalises to str
+            prefix_twin = rng.choice(["3.141592653589793238", "12345678901234567890123", "2018-01-02T10:30:00.000000", "0.000000000000000000001"])
+            extra.append(prefix_twin + rng.choice([" rad", "x", " ", "Z?", "e"]))
         values = strs * rng.choice([1, 1, 2]) + extra
         rng.shuffle(values)
         shape = rng.choice(["field", "field", "list", "listsplit", "nested"])
@@ -77,6 +83,8 @@ def gen_cases_for(seed_, n):
         if not samples:
             samples = [{"g": 0}]
         max_l = rng.choice(list(range(0, 18)))
+        if prefix_twin is not None:
+            samples[0] = {"p": prefix_twin, **samples[0]}
         reg = rng.choice([["IntString", "FloatString", "BooleanString"]] * 2 + [[]] +
                          [["IntString", "FloatString", "BooleanString", "IsoDateString", "IsoTimeString", "IsoDatetimeString"]])
         fw = rng.choice(FW)
